@@ -282,8 +282,10 @@ func (w *World) enumCases() []enumCase {
 	xs = append(xs, w.keys[0].d)
 	for _, x := range xs {
 		for _, dg := range digs {
-			x, dg := x, dg
-			cases = append(cases, enumCase{fmt.Sprintf("drbg x=%x dg=%x", x, dg), func(step int) { RunDrbg(w.r, step, x, dg, 6) }})
+			for bm := 0; bm < 4; bm++ {
+				x, dg, bm := x, dg, bm
+				cases = append(cases, enumCase{fmt.Sprintf("drbg x=%x dg=%x bufmode=%d", x, dg, bm), func(step int) { RunDrbg(w.r, step, x, dg, 6, bm) }})
+			}
 		}
 	}
 	// RFC 6979 signatures through the public API on the same grid
